@@ -76,6 +76,7 @@ def monitor(ctx):
     conv = {("TEMPERATURE", "c"): ("C", lambda v: v - 273.15, 0.005), ("TEMPERATURE", "f"): ("F", lambda v: (v - 273.15) * 9 / 5 + 32, 0.5),
             ("PRESSURE", "bar"): ("Bar", lambda v: v / 100000, 0), ("PRESSURE", "psi"): ("PSI", lambda v: v / 6894.76, 0),
             ("ANGLE", "deg"): ("Deg", lambda v: v * 180 / math.pi, 0.5), ("SPEED", "kts"): ("kts", lambda v: v * 3600 / 1852, 0.05)}
+    SI_UNIT = {"TEMPERATURE": "K", "PRESSURE": "Pa", "ANGLE": "rad", "SPEED": "m/s"}
     n = 0
     for sfx, p in db.defs.items():
         if not all("BitOffset" in f and "BitLength" in f for f in p["Fields"]) or not any(f.get("PhysicalQuantity") for f in p["Fields"]):
@@ -103,6 +104,8 @@ def monitor(ctx):
             for f0, f1 in zip(m0.fields, m1.fields):
                 q = f0.physical_quantities.name if f0.physical_quantities else None
                 c = conv.get((q, pr.get(q, "").lower())) if q else None
+                if c is not None and f0.unit_of_measurement != SI_UNIT[q]:
+                    c = None        # the database gives this field in another unit already (4 angles in degrees): no conversion from the SI unit applies
                 same_rest = (f0.id, f0.name, f0.description, f0.raw_value if not (isinstance(f0.raw_value, float) and math.isnan(f0.raw_value)) else None, f0.type, f0.part_of_primary_key) == \
                             (f1.id, f1.name, f1.description, f1.raw_value if not (isinstance(f1.raw_value, float) and math.isnan(f1.raw_value)) else None, f1.type, f1.part_of_primary_key)
                 if not same_rest:
